@@ -982,7 +982,11 @@ class C14(Prop):
                "strict operators other than int+int / int<int (bool and list operands) are not corresponded"]
     rule = ("systematic product: 23+ call shapes (global/method, 0-3 args, nested, in + < || && ?: ! all exists map) x behaviour (value, returned error, "
             "ValueError, TypeError) x 8 callable kinds x list/dict binding x both runners; random type-directed expressions (depth<=4) over random function tables "
-            "incl. shadowed size/contains and unbound names; metamorphic pairs (function vs method syntax, list vs dict) and histories (override then no override). "
+            "incl. shadowed size/contains and unbound names; metamorphic pairs (function vs method syntax, list vs dict) and histories (override then no override; "
+            "the first program's names are unbound later; same name rebound to another function; all programs built before the first is evaluated). "
+            "round 2: the same call reached again (two/three sites, both syntaxes, 1 vs true, other function with equal arguments, unhashable arguments, macro bodies over equal "
+            "elements) x behaviour x kind x runner; one program object evaluated three times; re-entrant evaluation (a host function evaluates another program); look-alike "
+            "callables (functools.wraps of a built-in / of a visible function, object equal to everything, def with a built-in's module/qualname); random expressions re-use earlier call sub-trees. "
             "non-trivial = at least one host function was applied AND (an error occurred, or the call sits under an operator/macro, or the callable is not a plain module-level def)")
 
     def setup(self):
